@@ -3,6 +3,7 @@ package checks
 import (
 	"fmt"
 	"math/rand"
+	"os"
 	"sync"
 	"time"
 
@@ -15,6 +16,7 @@ import (
 
 // QCfg parameterises a random producer/consumer history on one queue.
 type QCfg struct {
+	Tick        *int64 // progress counter for the watchdog (set by the caller)
 	Name        string
 	Seed        int64
 	PageSize    uint32
@@ -155,6 +157,7 @@ func consumeAck(e *qenv.Env, rng *rand.Rand, n int, ack bool) (int, int) {
 func RunQueueHistory(c QCfg) (tr *core.Trace, env *qenv.Env) {
 	rng := rand.New(rand.NewSource(c.Seed))
 	e := qenv.New(c.Name, txfile.Options{PageSize: c.PageSize, MaxSize: c.MaxPages * uint64(c.PageSize)}, c.WriteBuffer)
+	e.Tick = c.Tick
 	e.RecordIO = c.RecordIO
 	tr = &core.Trace{Name: c.Name, Meta: c.String()}
 	env = e
@@ -246,15 +249,20 @@ func queueHistories(r *core.Run, cfgs []QCfg) []*core.Trace {
 			defer wg.Done()
 			defer func() { <-sem }()
 			done := make(chan struct{})
+			var tr *core.Trace
+			c.Tick = new(int64)
 			go func() {
 				defer close(done)
-				tr, _ := RunQueueHistory(c)
-				traces[i] = tr
+				tr, _ = RunQueueHistory(c)
 			}()
-			select {
-			case <-done:
-			case <-time.After(120 * time.Second):
+			switch core.WatchRun(c.Tick, done, 90*time.Second, 30*time.Minute) {
+			case "":
+				traces[i] = tr
+			case "hang": // no operation returned for 90 s
 				traces[i] = &core.Trace{Name: c.Name, Meta: c.String(), Events: []core.Event{{"ev": "Hang", "cfg": c.String()}}}
+			default:
+				r.Break("history %s did not finish within the budget (it kept making progress)", c.Name)
+				traces[i] = &core.Trace{Name: c.Name, Meta: c.String()}
 			}
 		}(i, c)
 	}
@@ -373,7 +381,16 @@ func CheckC05(r *core.Run) {
 	defer explorePQ(r)()
 	r.Rule = "random producer/consumer histories over event-size classes around page and header boundaries (1 byte .. 5 pages), Write chunkings with flushes inside events, partial reads and skips, page sizes 1024/4096, write buffers 0/16KiB, reopen; every RNext size, every byte returned by RRead (content identifies the event id) and the read cursor are judged by PQTrace.tla (Fifo, ReadBytes, EventSize, WriteAccepted); distinct = configurations/seeds"
 	cfgs := pqCfgs(r, "c05", r.Pick(32, 200), func(i int, c *QCfg) { c.Steps = r.Pick(150, 400) })
+	if os.Getenv("VERIF_ONLY") == "pqreplay" { // (development aid: the replay part alone)
+		cfgs = nil
+	}
 	traces := queueHistories(r, cfgs)
+	// every behaviour of PQ.tla within small bounds (real layout constants) on the real queue
+	if r.Thorough() {
+		traces = append(traces, replayPQ(r, "PQReplay_t.cfg", 10)...)
+	} else {
+		traces = append(traces, replayPQ(r, "PQReplay_q.cfg", 2)...)
+	}
 	pqSample(r, traces)
 	{
 		for _, t := range traces {
@@ -398,6 +415,8 @@ func CheckC17(r *core.Run) {
 		}
 	})
 	traces := queueHistories(r, cfgs)
+	// Pending / Active after every flush, ACK and restart of every behaviour of PQ.tla (small bounds)
+	traces = append(traces, replayPQ(r, "PQReplay_q.cfg", 4)...)
 	pqSample(r, traces)
 	judgePQ(r, traces)
 }
@@ -415,6 +434,7 @@ func pqSample(r *core.Run, traces []*core.Trace) {
 func RunFillDrain(c QCfg, cycles int) (tr *core.Trace, env *qenv.Env) {
 	rng := rand.New(rand.NewSource(c.Seed))
 	e := qenv.New(c.Name, txfile.Options{PageSize: c.PageSize, MaxSize: c.MaxPages * uint64(c.PageSize)}, c.WriteBuffer)
+	e.Tick = c.Tick
 	tr = &core.Trace{Name: c.Name, Meta: c.String() + fmt.Sprintf(" cycles=%d", cycles)}
 	env = e
 	defer func() {
@@ -500,16 +520,21 @@ func CheckC12(r *core.Run) {
 		go func(c QCfg) {
 			defer wg.Done()
 			defer func() { <-sem }()
-			done := make(chan *core.Trace, 1)
+			done := make(chan struct{})
+			var tr, got *core.Trace
+			c.Tick = new(int64)
 			go func() {
-				tr, _ := RunFillDrain(c, r.Pick(6, 20))
-				done <- tr
+				defer close(done)
+				got, _ = RunFillDrain(c, r.Pick(6, 20))
 			}()
-			var tr *core.Trace
-			select {
-			case tr = <-done:
-			case <-time.After(180 * time.Second):
+			switch core.WatchRun(c.Tick, done, 90*time.Second, 30*time.Minute) {
+			case "":
+				tr = got
+			case "hang": // no operation returned for 90 s
 				tr = &core.Trace{Name: c.Name, Meta: c.String(), Events: []core.Event{{"ev": "Hang", "cfg": c.String()}}}
+			default:
+				r.Break("fill/drain run %s did not finish within the budget (it kept making progress)", c.Name)
+				tr = &core.Trace{Name: c.Name, Meta: c.String()}
 			}
 			mu.Lock()
 			traces = append(traces, tr)
@@ -521,6 +546,9 @@ func CheckC12(r *core.Run) {
 		r.AddDistinct(fmt.Sprint(t.Meta))
 		r.AddEvals(int64(len(t.Events)))
 	}
+	// the pages the queue holds after every flush, ACK and restart of every behaviour of PQ.tla
+	// (small bounds, unbounded file): the real inuse counter must equal the specification's
+	traces = append(traces, replayPQ(r, "PQReplay_q.cfg", 4)...)
 	pqSample(r, traces)
 	judgePQ(r, traces, "C05", "C06")
 }
